@@ -24,6 +24,8 @@ R16.g  ``JobShopGraph.add_edge`` adds (or overwrites) the edge with its
 R16.h  no function of these modules modifies the object of a mutable default
        argument (directly, through a local alias, or with ``+=``): the result
        of a call must not depend on earlier calls.
+R16.i  no for-loop variable of these modules is read after its loop (a statement
+       left one indentation level too shallow sees only the last element).
 """
 
 from __future__ import annotations
@@ -49,6 +51,7 @@ MANIFEST = {
         "the edge. Not decided: the edge sets as values, acyclicity and "
         "critical-path length of the solved graph."
         " Also decided: no function of these modules accumulates into a mutable default argument."
+        " Also decided: no for-loop variable of these modules is read after its loop (statement left one indentation level too shallow)."
     ),
     "note": "networkx's DiGraph semantics (add_edge overwrites attributes) are trusted.",
     "technique": "call-pair matching, must-call / must-not-call composition tables, loop-shape matching, typed truthiness lint",
@@ -109,6 +112,9 @@ def _etype(call):
 
 def run(ctx):
     chk, repo = ctx.chk, ctx.repo
+    from .common import check_loop_variable_leaks
+
+    check_loop_variable_leaks(ctx, "R16.i", ("job_shop_lib.graphs",), "the graph")
     for rid, txt in (
         ("R16.a", "undirected builders add (a,b) and (b,a) with identical attributes"),
         ("R16.b", "edge types and directions: DISJUNCTIVE for machine relations, CONJUNCTIVE i-1 -> i and source/sink"),
@@ -131,23 +137,9 @@ def run(ctx):
         fn[name] = raw[name] if name in COMPOSITION and name != "build_solved_disjunctive_graph" else ctx.norm.flat(raw[name], depth=4)
 
     # ---------------------------------------------------------------- R16.h
-    from .common import mutated_mutable_defaults
+    from .common import check_mutable_defaults
 
-    chk.rule("R16.h", "no graph builder accumulates into a mutable default argument (the graph of one call must not depend on earlier calls)")
-    hits, n_def = mutated_mutable_defaults(ctx, ("job_shop_lib.graphs",))
-    seen_h = set()
-    for fi_, pname, w in hits:
-        if (fi_.qualname, pname, id(w.event.node)) in seen_h:
-            continue
-        seen_h.add((fi_.qualname, pname, id(w.event.node)))
-        chk.violation(
-            "R16.h", fi_, w.event.node,
-            f"`{w.event.data.get('text')}` modifies the object of the mutable default argument `{pname}`: it is created once, so the "
-            "nodes/edges collected in one call are still in it in the next call and are added to that graph as well",
-            loc=w.loc,
-        )
-    if not hits:
-        chk.ok("R16.h", "job_shop_lib.graphs", "", f"{n_def} mutable default arguments in the graph modules, none is modified")
+    check_mutable_defaults(ctx, "R16.h", ("job_shop_lib.graphs",), "the graph")
 
     # ---------------------------------------------------------------- R16.a
     for name in UNDIRECTED:
